@@ -176,13 +176,15 @@ TEXT = {
           "lp_polynomial_factor_square_free and lp_polynomial_factor_content_free is judged per output: exact product of constant and "
           "factors with multiplicities (proved: the list arithmetic is a ring homomorphism into Z[X], so an accepted product check is "
           "an identity there: C05_product_sound); every factor square-free and distinct factors coprime by verified Bezout "
-          "certificates over Q / F_p (proved over Q: an accepted certificate implies Squarefree / IsCoprime: C05_sqfree_cert_sound, "
-          "C03_coprimeCert_sound) or, multivariate, by non-vanishing discriminants / resultants in every variable (reference of C04); "
+          "certificates over Q / F_p (proved: an accepted certificate implies Squarefree / IsCoprime - over Q C05_sqfree_cert_sound, "
+          "C03_coprimeCert_sound, over F_p FPoly.coprimeCert_sound) or, multivariate, by non-vanishing discriminants / resultants in every variable (reference of C04); "
           "full factorization over F_p compared with the model's complete trial-division factorization (monic factors, "
           "multiplicities); full factorization over Z compared with the irreducible blocks the input was built from, each block "
           "re-certified irreducible on every line (irreducible modulo a prime not dividing the leading coefficient, or Kronecker), a "
-          "reducible returned factor is reported with the block that divides it. Not formalised: the irreducibility criteria and the "
-          "use of unique factorization.",
+          "reducible returned factor is reported with the block that divides it. The criterion 'primitive, leading coefficient not "
+          "divisible by p, irreducible mod p => irreducible over Z' is proved (C05_irreducible_of_mod_p; also degree one: "
+          "C05_irreducible_of_degree_one). Not formalised: the model's decision that the reduction mod p is irreducible (exhaustive "
+          "trial division, executed), Kronecker's search and the use of unique factorization.",
   "design_ref": "5.5",
   "note": "found and fixed: lp_upolynomial_factor over Z with a non-monic primitive part returned reducible factors (former known finding D28, repaired by the monic transformation); two memory leaks in the Z factorization",
   "technique": "Lean 4 proved certificate soundness (product homomorphism, Bezout => squarefree / coprime) + per-output validation of the C results",
